@@ -61,7 +61,7 @@ package ratelimiter
 //@   ghost before LoadOrStore :: newBucket.seen := false
 //@   ensures owned: result != nil && result.owner == ptr(rl) && rl.buckets.has[clientIP] && rl.buckets.val[clientIP] == ptr(result)
 //@   ensures map: mapInv(rl)
-//@   ensures new_client_full: fresh(result) ==> result.tokens == rl.maxTokens && unlocked(result.mutex) && lockinv(result)
+//@   ensures seq: new_client_full: fresh(result) ==> result.tokens == rl.maxTokens && unlocked(result.mutex) && lockinv(result)
 //@   ensures seq: existing_untouched: !fresh(result) ==> result.tokens == old(result.tokens) && result.lastRefill == old(result.lastRefill)
 //@   ensures seq: isolation: forall k string :: {rl.buckets.has[k]} k != clientIP ==> rl.buckets.has[k] == old(rl.buckets.has[k]) && rl.buckets.val[k] == old(rl.buckets.val[k])
 //@   modifies rl.buckets.has, rl.buckets.val, rl.buckets.dyn
